@@ -112,7 +112,7 @@ def file_spec(rec, inst):
         ev = [[(7 * i) % 200 if dt == 'I' else float((7 * i) % 200)] + list(row) for i, row in enumerate(ev)]
         D += 1
     return dict(version='FCS3.0', datatype=dt, byteord='1,2,3,4' if dt == 'F' else '4,3,2,1',
-                widths=[16 if dt == 'I' else 32] * D, ranges=[int(rec.get('res', 1024))] * D, names=names, pne=pne, pnv=pnv, png=png,
+                widths=[{'I': 16, 'F': 32, 'D': 64}[dt]] * D, ranges=[int(rec.get('res', 1024))] * D, names=names, pne=pne, pnv=pnv, png=png,
                 events=ev, extra=[['$TIMESTEP', str(rec.get('timestep', '0.1'))], ['$BTIM', '12:00:00'], ['$ETIM', '12:05:00'], ['$DATE', '01-JAN-2020']])
 
 
@@ -211,7 +211,7 @@ def experiment(draw, max_inst=3, max_beads=2, max_samples=4, min_samples=1, with
     for k in range(ns):
         with_beads = [i for i in insts if any(b['instrument'] == i['id'] for b in beads)]
         inst = draw(st.sampled_from(with_beads + with_beads + insts))
-        dt = draw(st.sampled_from(['I', 'I', 'F'])) if with_float else 'I'
+        dt = draw(st.sampled_from(['I', 'I', 'I', 'F', 'F', 'D'])) if with_float else 'I'      # D: double-precision floats
         fname = 'cells%d.fcs' % (k + 1)
         earlier = [s_['file'] for s_ in samples if s_['instrument'] == inst['id']]
         if earlier and draw(st.sampled_from([False, False, True])):
@@ -227,7 +227,7 @@ def experiment(draw, max_inst=3, max_beads=2, max_samples=4, min_samples=1, with
         units = {}
         for c in inst['fl']:
             kind = draw(st.sampled_from(['none', 'channel', 'rfi', 'au', 'mef', 'mef']))
-            if kind == 'mef' and (b is None or c not in b['mef'] or dt == 'F'):
+            if kind == 'mef' and (b is None or c not in b['mef'] or dt != 'I'):
                 kind = draw(st.sampled_from(['rfi', 'au', 'channel', 'none']))
             u = None if kind == 'none' else draw(st.sampled_from(dict(channel=['Channel', 'Channel', 'channel'], rfi=['RFI', 'rfi'],
                                                                      au=['a.u.', 'A.U.', 'au', 'AU'], mef=['MEF', 'mef', 'Mef'])[kind]))
